@@ -394,8 +394,14 @@ func c36Build(t *testing.T, base string) *c36Corpus {
 				case 0:
 					ln = s.add("before ", next(), "")
 				case 1:
-					pre := s.add("pre ", next(), " needle ")
-					post := s.add("", next(), " post")
+					// di == 2: a line longer than the result page shows (LimitPre / LimitPost keep 100 bytes
+					// on either side of the match): the payloads sit inside the retained windows
+					prefix, suffix := "pre ", " post"
+					if di == 2 {
+						prefix, suffix = strings.Repeat("zy ", 50)+"pre ", " post"+strings.Repeat(" yz", 50)
+					}
+					pre := s.add(prefix, next(), " needle ")
+					post := s.add("", next(), suffix)
 					ln = [2]string{pre[0] + post[0], pre[1] + post[1]}
 				case 2:
 					ln = s.add("after ", next(), "")
